@@ -312,22 +312,22 @@ func (r *Result) Finish(verifDir string, known []KnownEntry) int {
 		samples = append(samples, "no obligations (see findings)")
 	}
 	cov := map[string]interface{}{
-		"explanation":         r.Explain,
-		"rules":               r.Rules,
-		"obligations":         total,
-		"discharged":          held,
-		"evaluations":         total,
-		"distinct_nontrivial": len(distinct),
-		"rule":                "one evaluation per (rule, construct, clause) instance found in /repo's current source; distinct = distinct (rule, construct) pairs; every instance is a non-trivial obligation (a site the rule's pattern matched and had to decide)",
+		"explanation":          r.Explain,
+		"rules":                r.Rules,
+		"obligations":          total,
+		"discharged":           held,
+		"evaluations":          total,
+		"distinct_nontrivial":  len(distinct),
+		"rule":                 "one evaluation per (rule, construct, clause) instance found in /repo's current source; distinct = distinct (rule, construct) pairs; every instance is a non-trivial obligation (a site the rule's pattern matched and had to decide)",
 		"obligations_per_rule": perRule,
-		"samples":             samples,
-		"census":              r.Census,
-		"configs":             r.Configs,
-		"trusted_base":        r.Trusted,
-		"notes":               r.Notes,
-		"known_findings":      knownHit,
-		"checker_cmd":         strings.Join(os.Args, " "),
-		"exhaustive":          true,
+		"samples":              samples,
+		"census":               r.Census,
+		"configs":              r.Configs,
+		"trusted_base":         r.Trusted,
+		"notes":                r.Notes,
+		"known_findings":       knownHit,
+		"checker_cmd":          strings.Join(os.Args, " "),
+		"exhaustive":           true,
 	}
 	for k, v := range r.Extra {
 		cov[k] = v
